@@ -106,9 +106,16 @@ fn compute_gap_resources(
         return WorkerResources::new(Vec::new().into());
     };
     let n_resources = n_unresources + 1;
+    // The result is indexed by resource ids, so resources that the worker does not provide
+    // have to be kept (with a zero gap)
     let gap_res: Vec<ResourceAmount> = resources
-        .iter_pairs()
-        .map(|(r_id, r_amount)| {
+        .iter_amounts()
+        .enumerate()
+        .map(|(idx, r_amount)| {
+            if r_amount.is_zero() {
+                return ResourceAmount::ZERO;
+            }
+            let r_id = ResourceId::new(idx as u32);
             let mut solver = LpSolver::new(false);
             let mut cst = vec![Vec::new(); n_resources];
             let vars: Vec<_> = rqv
